@@ -10,7 +10,7 @@ from .common import FnCtx, fnctx, sctx, is_method_call, self_attr_stores
 from . import c04, c05
 
 PROP = "C19"
-FLOORS = {"C19.R1": 12, "C19.R2": 9, "C19.R3": 5, "C19.R4": 2, "C19.R5": 2, "C19.R6": 5, "C19.R7": 20, "C19.R8": 100}
+FLOORS = {"C19.R1": 12, "C19.R2": 9, "C19.R3": 5, "C19.R4": 2, "C19.R5": 2, "C19.R6": 5, "C19.R7": 20, "C19.R8": 100, "C19.R9": 6}
 META = {
     "explanation": "Both evaluators are the same MadxEval class; only the three containers differ. The grammar constant is read from the "
                    "AST and parsed with lark (no code of /repo runs): every rule alias has a callback in MadxEval (also after the "
@@ -260,4 +260,6 @@ def check(col: Collector):
     # ... and the operand algebra itself: operator dunders build the node Python prescribes on every path
     c04._binary(sub, rule="C19.R8")
     c04._unary(sub, rule="C19.R8")
+    # element access `el->name` / variables are navigated with the name exactly as the grammar delivers it
+    c04.navigation_rules(sub, rule="C19.R9")
     col.obs.extend(o for o in sub.obs if not o.note)
